@@ -15,6 +15,7 @@ func init() {
 	register(&Prop{ID: "C12", Run: runC12,
 		Technique: "static analysis: field coverage of teardown (value-flow from Flush/Close receivers to Node fields), typestate of the one-shot teardown flag, must-pass-through of teardown on every worker exit, writer wiring value-flow, sibling agreement of Executor implementations (go/ssa)",
 		Decided: []string{
+			"no flush at teardown is conditional on the result of another sink's flush/sync/close, and a flushing loop is not left on such a result (C12.flush-independent)",
 			"the step's log and redirect files are opened append-only unless new, through every function the node's set-up reaches (C12.append-only); stdout and stderr handed to the executor are one writer or share no sink (C12.wiring)",
 			"the output-capture pipe, which shares one MultiWriter with the step's log, is drained to EOF by a goroutine that never closes its read end (C11.pipe-drained, shared)",
 			"every buffered writer a setup function installs on the node is flushed, and its file closed, by teardown (C12.teardown-coverage)",
@@ -36,6 +37,7 @@ func runC12(e *Env) {
 		return
 	}
 	c12Coverage(e, s)
+	c12FlushIndependent(e)
 	c12Rearm(e, s)
 	c12AlwaysTeardown(e, s)
 	c12Wiring(e, s)
